@@ -9,6 +9,7 @@ import Chrono.Proofs.DateL
 import Chrono.Proofs.IsoL
 import Chrono.Proofs.C01GapsL
 import Chrono.Proofs.C01Round2L
+import Chrono.Props.GenDate
 
 namespace Chrono.Props.C01
 open Chrono Chrono.M Chrono.Spec Chrono.Proofs Chrono.Extracted Chrono.Proofs.C01Gaps
@@ -508,5 +509,140 @@ example : Date.from_ymd_opt 2024 2 29 = .ok (some (dateOfYo 2024 60)) ∧
     Date.from_num_days_from_ce_opt 738945 = .ok (some (dateOfYo 2024 60)) ∧
     IsoWeek.week0r (2024 * 1024 + 0 * 16 + 6) = .panic ∧
     IsoWeek.week0r (2024 * 1024 + 9 * 16 + 6) = .ok 8 := by decide +kernel
+
+/-! ### End to end: translated source text = specification
+
+`Chrono.Props.GenDate.gen_*_eq` prove the definitions that tools/extractors/rust2lean.py regenerates from the
+Rust source text on every run (lean/Chrono/Extracted/Gen.lean) equal to the hand-written model; the theorems
+above prove the model equal to the specification.  Composed here, so that the statement about the
+translated code does not mention the model at all.  A `NaiveDate` is its packed word (`Date.yof`).
+Not composable yet: `from_isoywd_opt`, `iso_week`, the 0-based twins (no `gen_*_eq`, see audit2/C01.md gap 1). -/
+
+/-- `NaiveDate::from_ymd_opt` as translated from the source, every `i32`/`u32` argument tuple -/
+theorem code_from_ymd_opt (y : Int) (m d : Nat) (hm : m ≤ 4294967295) (hd : d ≤ 4294967295) :
+    Gen.naive_date.NaiveDate.from_ymd_opt y m d =
+      .ok (if MIN_YEAR ≤ y ∧ y ≤ MAX_YEAR ∧ validYmd y m d = true
+           then some (dateOfYo y (ordinalOf y m d)).yof else none) := by
+  rw [GenDate.gen_from_ymd_opt_eq y m d hm hd, ctor_ymd]
+  by_cases c : MIN_YEAR ≤ y ∧ y ≤ MAX_YEAR ∧ validYmd y m d = true
+  · rw [if_pos c, if_pos c]; rfl
+  · rw [if_neg c, if_neg c]; rfl
+
+/-- `NaiveDate::from_yo_opt` as translated from the source -/
+theorem code_from_yo_opt (y : Int) (o : Nat) (ho : o ≤ 4294967295) :
+    Gen.naive_date.NaiveDate.from_yo_opt y o =
+      .ok (if MIN_YEAR ≤ y ∧ y ≤ MAX_YEAR ∧ 1 ≤ o ∧ o ≤ yearLen y then some (dateOfYo y o).yof else none) := by
+  rw [GenDate.gen_from_yo_opt_eq y o ho, ctor_yo]
+  by_cases c : MIN_YEAR ≤ y ∧ y ≤ MAX_YEAR ∧ 1 ≤ o ∧ o ≤ yearLen y
+  · rw [if_pos c, if_pos c]; rfl
+  · rw [if_neg c, if_neg c]; rfl
+
+/-- `NaiveDate::from_num_days_from_ce_opt` as translated from the source, every `i32` -/
+theorem code_from_num_days_from_ce_opt (n : Int) (hn : -2147483648 ≤ n ∧ n ≤ 2147483647) :
+    ∃ r, Gen.naive_date.NaiveDate.from_num_days_from_ce_opt n = .ok r ∧
+      (∀ w, r = some w → ∃ y o, w = (dateOfYo y o).yof ∧ MIN_YEAR ≤ y ∧ y ≤ MAX_YEAR ∧ 1 ≤ o ∧
+        o ≤ yearLen y ∧ dayNumYo y o = n) ∧
+      (r = none ↔ (n < dayNumYo MIN_YEAR 1 ∨ n > dayNumYo MAX_YEAR 365)) := by
+  obtain ⟨r, h1, h2, h3⟩ := ctor_days n hn
+  refine ⟨r.map Date.yof, ?_, ?_, ?_⟩
+  · rw [GenDate.gen_from_num_days_from_ce_opt_eq n hn, h1]; rfl
+  · intro w hw
+    cases r with
+    | none => exact absurd hw (by simp)
+    | some d =>
+      obtain ⟨y, o, e, rest⟩ := h2 d rfl
+      refine ⟨y, o, ?_, rest⟩
+      rw [← e]; exact (Option.some.inj hw).symm
+  · rw [← h3]; cases r <;> simp
+
+/-- the translated accessors on the packed word of the o-th day of year y: the calendar form, the
+closed-form day number, the weekday of the day number -/
+theorem code_accessors (y : Int) (o : Nat) (hy : MIN_YEAR ≤ y ∧ y ≤ MAX_YEAR) (ho : 1 ≤ o ∧ o ≤ yearLen y) :
+    Gen.naive_date.NaiveDate.year (dateOfYo y o).yof = y ∧
+    Gen.naive_date.NaiveDate.ordinal (dateOfYo y o).yof = o ∧
+    Gen.naive_date.NaiveDate.leap_year (dateOfYo y o).yof = isLeap y ∧
+    Gen.naive_date.NaiveDate.month (dateOfYo y o).yof = .ok (monthOfYo y o : Int) ∧
+    Gen.naive_date.NaiveDate.day (dateOfYo y o).yof = .ok (dayOfYo y o : Int) ∧
+    Gen.naive_date.NaiveDate.num_days_from_ce (dateOfYo y o).yof = .ok (dayNumYo y o) ∧
+    Gen.traits.NaiveDate.Datelike.num_days_from_ce (dateOfYo y o).yof = .ok (dayNumYo y o) ∧
+    (∃ w : Nat, Gen.naive_date.NaiveDate.weekday (dateOfYo y o).yof = .ok w ∧
+      (w : Int) = weekdayOf (dayNumYo y o)) := by
+  obtain ⟨a1, a2, a3, a4, a5, _, _, a8, a9⟩ := accessors_ok y o hy ho
+  have hw : -2147483648 ≤ (dateOfYo y o).yof ∧ (dateOfYo y o).yof ≤ 2147483647 := by
+    have hf := (flagsOf_facts y).1
+    have hl := yearLen_ge y
+    have hMIN : MIN_YEAR = -262143 := rfl
+    have hMAX : MAX_YEAR = 262142 := rfl
+    unfold dateOfYo; dsimp only; omega
+  refine ⟨?_, ?_, ?_, ?_, ?_, ?_, ?_, ?_⟩
+  · rw [GenDate.gen_year_eq, a1]
+  · rw [GenDate.gen_ordinal_eq, a2]
+  · rw [GenDate.gen_leap_year_eq, a3]
+  · rw [GenDate.gen_month_eq, a4]; rfl
+  · rw [GenDate.gen_day_eq, a5]; rfl
+  · rw [GenDate.gen_num_days_from_ce_eq _ hw, a8]
+  · rw [GenDate.gen_datelike_num_days_from_ce_eq _ hw, a8]
+  · exact ⟨_, GenDate.gen_weekday_eq _, a9⟩
+
+/-- `NaiveDate::succ_opt` as translated from the source: the next day, `None` exactly at MAX -/
+theorem code_succ_opt (y : Int) (o : Nat) (hy : MIN_YEAR ≤ y ∧ y ≤ MAX_YEAR) (ho : 1 ≤ o ∧ o ≤ yearLen y) :
+    ∃ r, Gen.naive_date.NaiveDate.succ_opt (dateOfYo y o).yof = .ok r ∧
+      (r = none ↔ dateOfYo y o = Date.MAX) ∧
+      (∀ w, r = some w → ∃ y' o', w = (dateOfYo y' o').yof ∧ MIN_YEAR ≤ y' ∧ y' ≤ MAX_YEAR ∧ 1 ≤ o' ∧
+        o' ≤ yearLen y' ∧ dayNumYo y' o' = dayNumYo y o + 1) := by
+  obtain ⟨r, h1, h2, h3⟩ := succ_ok y o hy ho
+  have hw : -2147483648 ≤ (dateOfYo y o).yof ∧ (dateOfYo y o).yof ≤ 2147483647 := by
+    have hf := (flagsOf_facts y).1
+    have hl := yearLen_ge y
+    have hMIN : MIN_YEAR = -262143 := rfl
+    have hMAX : MAX_YEAR = 262142 := rfl
+    unfold dateOfYo; dsimp only; omega
+  refine ⟨r.map Date.yof, ?_, ?_, ?_⟩
+  · rw [GenDate.gen_succ_opt_eq _ hw, h1]; rfl
+  · rw [← h2]; cases r <;> simp
+  · intro w hw'
+    cases r with
+    | none => exact absurd hw' (by simp)
+    | some d =>
+      obtain ⟨y', o', e, b1, b2, b3, b4, b5, _⟩ := h3 d rfl
+      refine ⟨y', o', ?_, b1, b2, b3, b4, b5⟩
+      rw [← e]; exact (Option.some.inj hw').symm
+
+/-- `NaiveDate::pred_opt` as translated from the source: the previous day, `None` exactly at MIN -/
+theorem code_pred_opt (y : Int) (o : Nat) (hy : MIN_YEAR ≤ y ∧ y ≤ MAX_YEAR) (ho : 1 ≤ o ∧ o ≤ yearLen y) :
+    ∃ r, Gen.naive_date.NaiveDate.pred_opt (dateOfYo y o).yof = .ok r ∧
+      (r = none ↔ dateOfYo y o = Date.MIN) ∧
+      (∀ w, r = some w → ∃ y' o', w = (dateOfYo y' o').yof ∧ MIN_YEAR ≤ y' ∧ y' ≤ MAX_YEAR ∧ 1 ≤ o' ∧
+        o' ≤ yearLen y' ∧ dayNumYo y' o' = dayNumYo y o - 1) := by
+  obtain ⟨r, h1, h2, h3⟩ := pred_ok y o hy ho
+  have hf := (flagsOf_facts y).1
+  have hl := yearLen_ge y
+  have hw : -2147483648 ≤ (dateOfYo y o).yof ∧ (dateOfYo y o).yof ≤ 2147483647 := by
+    have hMIN : MIN_YEAR = -262143 := rfl
+    have hMAX : MAX_YEAR = 262142 := rfl
+    unfold dateOfYo; dsimp only; omega
+  have hol : (dateOfYo y o).yof / 8 % 1024 ≤ 732 := by
+    have hfl := (year_flags_spec y).2.2
+    have ho2 := ho.2
+    unfold yearLen at ho2
+    unfold dateOfYo; dsimp only
+    cases hq : isLeap y <;> simp [hq] at hfl ho2 <;> omega
+  refine ⟨r.map Date.yof, ?_, ?_, ?_⟩
+  · rw [GenDate.gen_pred_opt_eq _ hw hol, h1]; rfl
+  · rw [← h2]; cases r <;> simp
+  · intro w hw'
+    cases r with
+    | none => exact absurd hw' (by simp)
+    | some d =>
+      obtain ⟨y', o', e, rest⟩ := h3 d rfl
+      refine ⟨y', o', ?_, rest⟩
+      rw [← e]; exact (Option.some.inj hw').symm
+
+/-- non-vacuity on the translated code itself -/
+example : Gen.naive_date.NaiveDate.from_ymd_opt 2024 2 29 = .ok (some (dateOfYo 2024 60).yof) ∧
+    Gen.naive_date.NaiveDate.from_ymd_opt 2023 2 29 = .ok none ∧
+    Gen.naive_date.NaiveDate.from_yo_opt (-262143) 1 = .ok (some Date.MIN.yof) ∧
+    Gen.naive_date.NaiveDate.succ_opt Date.MAX.yof = .ok none ∧
+    Gen.naive_date.NaiveDate.pred_opt Date.MIN.yof = .ok none := by decide +kernel
 
 end Chrono.Props.C01
